@@ -8,7 +8,15 @@ import (
 type pg struct {
 	r    tape.RNG
 	tier string
+	// deep: in the thorough tier a quarter of the runs (chosen from the seed, not
+	// from the plan stream, so the quick tier's plans are unchanged) get plans
+	// three times as long: more segments, more truncation / crash / recovery
+	// cycles stacked on one directory.
+	deep int
 }
+
+// ops scales a plan length for deep runs.
+func (p *pg) ops(n int) int { return n * p.deep }
 
 var segSizes = []int{64, 128, 200, 256, 512, 1024, 4096, 65536}
 var firstIndexes = []uint64{1, 1, 1, 2, 1000, 1<<32 - 1, 1<<32 + 1, 1 << 62}
@@ -192,7 +200,7 @@ func (p *pg) genC05() (Config, Plan) {
 		return c, plan
 	}
 	mix := p.swarmMix(seqKinds, "append")
-	n := 5 + p.r.Intn(50)
+	n := p.ops(5 + p.r.Intn(50))
 	for i := 0; i < n; i++ {
 		plan.Ops = append(plan.Ops, p.draw(mix))
 	}
@@ -201,7 +209,10 @@ func (p *pg) genC05() (Config, Plan) {
 
 // Generate derives the configuration and plan of run `seed` of a profile.
 func Generate(prop string, seed uint64, tier string) (Config, Plan) {
-	p := &pg{r: tape.RNG{S: tape.Mix(seed, 0x706c616e)}, tier: tier}
+	p := &pg{r: tape.RNG{S: tape.Mix(seed, 0x706c616e)}, tier: tier, deep: 1}
+	if tier == "thorough" && tape.Mix(seed, 0x64656570)%4 == 0 {
+		p.deep = 3
+	}
 	switch prop {
 	case "C05":
 		return p.genC05()
